@@ -2,7 +2,8 @@
 (***************************************************************************)
 (* C20 monitor: linearizability of the recorded history of round            *)
 (* applications (a0/a1), snapshots (s0/s1) and clears (c0/c1) against the   *)
-(* abstract counter cnt = rounds applied since the last clear.              *)
+(* abstract state: cnt = rounds applied since the last clear, err = the      *)
+(* tracer has failed (f0/f1: the error hand-off) since the last clear.       *)
 (*                                                                          *)
 (* Events are totally ordered by a process-wide atomic sequence number      *)
 (* taken before a call starts and after it returns, so if one call's end    *)
@@ -21,13 +22,14 @@ EXTENDS Integers, Sequences, FiniteSets, TLC, Json, IOUtils
 Rec == ndJsonDeserialize(IOEnv.TRACE)
 N   == Len(Rec)
 
-VARIABLES l, cnt, pend
-vars == <<l, cnt, pend>>
+VARIABLES l, cnt, err, pend
+vars == <<l, cnt, err, pend>>
 \* pend: tid -> [kind, lin, val] for calls that have started and not yet ended
 
-Start(e) == e.e \in {"a0", "s0", "c0"}
-EndEv(e) == e.e \in {"a1", "s1", "c1"}
-KindOf(e) == IF e.e \in {"a0", "a1"} THEN "apply" ELSE IF e.e \in {"s0", "s1"} THEN "snap" ELSE "clear"
+Start(e) == e.e \in {"a0", "s0", "c0", "f0"}
+EndEv(e) == e.e \in {"a1", "s1", "c1", "f1"}
+KindOf(e) == IF e.e \in {"a0", "a1"} THEN "apply" ELSE IF e.e \in {"s0", "s1"} THEN "snap"
+             ELSE IF e.e \in {"f0", "f1"} THEN "fail" ELSE "clear"
 
 \* every count in the digest equals v
 Uniform(d, v) ==
@@ -37,27 +39,28 @@ Uniform(d, v) ==
     /\ v > 0 => Len(d.flows) = 1
     /\ \A i \in 1..Len(d.flows) : d.flows[i].rc = v /\ \A j \in 1..Len(d.flows[i].sent) : d.flows[i].sent[j] = v
 
-Init == TLCSet(1, 0) /\ l = 1 /\ cnt = 0 /\ pend = <<>>
+Init == TLCSet(1, 0) /\ l = 1 /\ cnt = 0 /\ err = FALSE /\ pend = <<>>
 
 Consume ==
     /\ l <= N
     /\ LET e == Rec[l] IN
-       CASE e.e = "run" -> l' = l + 1 /\ cnt' = 0 /\ pend' = <<>>
-         [] Start(e)    -> /\ l' = l + 1 /\ cnt' = cnt
+       CASE e.e = "run" -> l' = l + 1 /\ cnt' = 0 /\ err' = FALSE /\ pend' = <<>>
+         [] Start(e)    -> /\ l' = l + 1 /\ cnt' = cnt /\ err' = err
                            /\ pend' = [x \in (DOMAIN pend) \cup {e.tid} |->
-                                         IF x = e.tid THEN [kind |-> KindOf(e), lin |-> FALSE, val |-> -1] ELSE pend[x]]
+                                         IF x = e.tid THEN [kind |-> KindOf(e), lin |-> FALSE, val |-> -1, verr |-> FALSE] ELSE pend[x]]
          [] EndEv(e)    -> /\ e.tid \in DOMAIN pend /\ pend[e.tid].lin
-                           /\ (e.e = "s1" => Uniform(e.d, pend[e.tid].val))
-                           /\ l' = l + 1 /\ cnt' = cnt
+                           /\ (e.e = "s1" => Uniform(e.d, pend[e.tid].val) /\ e.d.err = pend[e.tid].verr)
+                           /\ l' = l + 1 /\ cnt' = cnt /\ err' = err
                            /\ pend' = [x \in (DOMAIN pend) \ {e.tid} |-> pend[x]]
-         [] OTHER       -> l' = l + 1 /\ UNCHANGED <<cnt, pend>>
+         [] OTHER       -> l' = l + 1 /\ UNCHANGED <<cnt, err, pend>>
 
 Lin(t) ==
     /\ t \in DOMAIN pend /\ ~pend[t].lin
     /\ l' = l
-    /\ CASE pend[t].kind = "apply" -> cnt' = cnt + 1 /\ pend' = [pend EXCEPT ![t].lin = TRUE]
-         [] pend[t].kind = "clear" -> cnt' = 0 /\ pend' = [pend EXCEPT ![t].lin = TRUE]
-         [] OTHER                  -> cnt' = cnt /\ pend' = [pend EXCEPT ![t].lin = TRUE, ![t].val = cnt]
+    /\ CASE pend[t].kind = "apply" -> cnt' = cnt + 1 /\ err' = err /\ pend' = [pend EXCEPT ![t].lin = TRUE]
+         [] pend[t].kind = "clear" -> cnt' = 0 /\ err' = FALSE /\ pend' = [pend EXCEPT ![t].lin = TRUE]
+         [] pend[t].kind = "fail"  -> cnt' = cnt /\ err' = TRUE /\ pend' = [pend EXCEPT ![t].lin = TRUE]
+         [] OTHER                  -> cnt' = cnt /\ err' = err /\ pend' = [pend EXCEPT ![t].lin = TRUE, ![t].val = cnt, ![t].verr = err]
 
 Next == Consume \/ \E t \in DOMAIN pend : Lin(t)
 Spec == Init /\ [][Next]_vars
